@@ -1,6 +1,7 @@
 package util
 
 import (
+	"io"
 	"os"
 	"path/filepath"
 	"sort"
@@ -79,9 +80,14 @@ func WriteFileAt(dir *os.File, filename string, data []byte, perm os.FileMode) e
 		return oerr
 	}
 	verifKillPoint(1, filename)
-	_, werr := unix.Write(fd, data)
+	n, werr := unix.Write(fd, data)
 	verifKillPoint(2, filename)
-	unix.Close(fd)
+	if werr == nil && n != len(data) {
+		werr = io.ErrShortWrite // e.g. file size limit or disk full in the middle of the data
+	}
+	if cerr := unix.Close(fd); werr == nil {
+		werr = cerr
+	}
 	verifKillPoint(3, filename)
 	return werr
 }
